@@ -631,8 +631,8 @@ def run(ctx):
 def y_plan(ctx):
     q = ctx.quick()
     P = [((2, 2), None, 4 if q else 12), ((2, 3), None, 2 if q else 6), ((3, 2), None, 2 if q else 6),
-         ((3, 3), 30 if q else 400, 2), ((2, 4), 20 if q else None, 2), ((4, 2), 20 if q else None, 2),
-         ((2, 5), 6 if q else 60, 1), ((5, 2), 6 if q else 60, 1)]
+         ((3, 3), 30 if q else 200, 2), ((2, 4), 20 if q else 400, 2), ((4, 2), 20 if q else 400, 2),
+         ((2, 5), 6 if q else 30, 1), ((5, 2), 6 if q else 30, 1)]
     if not q:
         P += [((3, 4), 4, 1), ((4, 3), 4, 1), ((2, 6), 4, 1)]
     return P
